@@ -394,12 +394,12 @@ func (e *errEngine) firstSentinelGlobal(c *ssa.Call) *ssa.Global {
 	if len(c.Call.Args) < 2 {
 		return nil
 	}
-	args := variadicArgs(c.Call.Args[1])
-	fc, _ := c.Call.Args[0].(*ssa.Const)
-	if fc == nil {
+	args := errorfArgs(c.Call.Args[1])
+	pre := formatPrefix(c.Call.Args[0])
+	if pre == "" {
 		return nil
 	}
-	verbs := formatVerbs(constString(fc))
+	verbs := formatVerbs(pre)
 	for i, a := range args {
 		if a == nil || i >= len(verbs) || verbs[i] != 'w' {
 			continue
